@@ -28,7 +28,7 @@ def quant(x, e, tol):
     if e is not None and abs(x - float(e)) <= tol:
         return rj(e)
     q = F(x).limit_denominator(4096)
-    if abs(float(q) - x) <= min(tol, 1e-9 * max(1.0, abs(x))):
+    if abs(float(q) - x) <= tol:
         return rj(q)
     return NANQ
 
